@@ -808,6 +808,13 @@ func (s *Silences) indexSilence(sil *pb.Silence) {
 	}
 }
 
+// reindexSilence moves an already indexed silence to a new version, so that
+// incremental readers (QSince) see it again.
+func (s *Silences) reindexSilence(sil *pb.Silence) {
+	s.vi = slices.DeleteFunc(s.vi, func(sv silenceVersion) bool { return sv.id == sil.Id })
+	s.indexSilence(sil)
+}
+
 func (s *Silences) getSilence(id string) (*pb.Silence, bool) {
 	msil, ok := s.st[id]
 	if !ok {
@@ -1311,10 +1318,21 @@ func (s *Silences) Merge(b []byte) error {
 	now := s.nowUTC()
 
 	for _, e := range st {
+		// A newer version received for a silence that has already expired
+		// locally may make it active or pending again. Callers tracking
+		// Version() (e.g. Silencer) only look at silences indexed after the
+		// version they have seen, so such a silence must be re-indexed.
+		revived := false
+		if prev, ok := s.st[e.Silence.Id]; ok {
+			revived = getState(prev.Silence, now) == SilenceStateExpired &&
+				getState(e.Silence, now) != SilenceStateExpired
+		}
 		merged, added := s.st.merge(e, now)
 		if merged {
 			if added {
 				s.indexSilence(e.Silence)
+			} else if revived {
+				s.reindexSilence(e.Silence)
 			}
 			if !cluster.OversizedMessage(b) {
 				// If this is the first we've seen the message and it's
